@@ -129,6 +129,10 @@ def run(ctx):
     # ---------------------------------------------------------------- R04.7 concrete quarter / three-quarter circles
     _axis_circles(ctx, mdl)
 
+    _path_arc_replacement(ctx, mdl)
+    # ---------------------------------------------------------------- R04.8 arcs handed out by the library
+    _returned_arcs(ctx, mdl)
+
     # ---------------------------------------------------------------- R04.6 approximations
     for meth, npts in (('as_cubic_curves', 4), ('as_quad_curves', 3)):
         f = mdl.func('path.Arc.' + meth)
@@ -162,6 +166,57 @@ def run(ctx):
 
 
 # ------------------------------------------------------------------------------------------------
+def _path_arc_replacement(ctx, mdl):
+    """Path.approximate_arcs_with_cubics / _quads on a path with several arcs between other segments: every arc is replaced, in place and
+    in order, by exactly the chain its own as_*_curves(n) returns, with n = ceil(|delta| / (360 error)); nothing else moves."""
+    import math
+    from svtstatic.builtins_model import as_int
+    PathC = mdl.cls('path.Path')
+    for meth, conv in (('approximate_arcs_with_cubics', 'as_cubic_curves'), ('approximate_arcs_with_quads', 'as_quad_curves')):
+        if meth not in PathC.methods:
+            continue
+        fi = PathC.methods[meth]
+
+        def th(it, meth=meth, conv=conv):
+            l0 = it.construct('path.Line', Rat.const(-5), Rat.const(1))
+            a1 = it.construct('path.Arc', Rat.const(1), Rat.const(1 + 1j), Rat.const(0), True, True, Rat.const(-1j))      # 270 degrees
+            l1 = it.construct('path.Line', Rat.const(-1j), Rat.const(3j))
+            a2 = it.construct('path.Arc', Rat.const(3j), Rat.const(2 + 2j), Rat.const(0), False, True, Rat.const(-2 + 5j))  # 90 degrees
+            a3 = it.construct('path.Arc', Rat.const(-2 + 5j), Rat.const(2 + 2j), Rat.const(0), False, False, Rat.const(-4 + 3j))
+            l2 = it.construct('path.Line', Rat.const(-4 + 3j), Rat.const(9))
+            chains = {}
+
+            def hook(it2, a, k):
+                n = as_int(a[1] if len(a) > 1 else k.get('curves'))
+                arc = a[0]
+                ch = [it2.construct('path.Line', Rat.csym('M%d_%d' % (id(arc) % 9973, i)), Rat.csym('M%d_%d' % (id(arc) % 9973, i + 1))) for i in range(n)]
+                chains[id(arc)] = (n, ch)
+                return ch
+            it.call_hooks['path.Arc.' + conv] = hook
+            p = it.construct('path.Path', l0, a1, l1, a2, a3, l2)
+            it.call_method(p, meth, Rat.const(Fr(1, 10)))
+            return list(p.attrs['_segments']), [l0, a1, l1, a2, a3, l2], chains
+
+        def judge(v):
+            got, orig, chains = v
+            exp = []
+            for sg in orig:
+                if sg.cls.name == 'Arc':
+                    if id(sg) not in chains:
+                        return False, 'an arc of the path is not converted'
+                    n, ch = chains[id(sg)]
+                    want_n = int(math.ceil(abs(float(to_rat(sg.attrs['delta']).as_fraction())) / 36.0))
+                    if n != want_n:
+                        return False, 'an arc of %s degrees is cut into %d pieces for error 0.1 (expected %d)' % (short(sg.attrs['delta'], 8), n, want_n)
+                    exp += ch
+                else:
+                    exp.append(sg)
+            ok = len(got) == len(exp) and all(g is e for g, e in zip(got, exp))
+            return ok, '' if ok else 'the segment list afterwards has %d entries in an order other than [line, chain of arc 1, line, chain of arc 2, chain of arc 3, line] (%d expected)' % (len(got), len(exp))
+        Obligation(ctx, 'R04.6').run(fi, 'Path.%s on line-arc-line-arc-arc-line: each arc replaced in place by its own chain' % meth, th, judge,
+                                     allowed_raises=())
+
+
 def _axis_circles(ctx, mdl):
     """circular arcs between axis points of a circle (every quantity of F.6.5 is then exact: angles are multiples of 90 degrees),
     built by the REAL constructor for all flag combinations, x-axis rotations 0/90/180/-90 (irrelevant for a circle, but part
@@ -262,6 +317,81 @@ def _axis_circles(ctx, mdl):
                 ctx.undecided('R04.7', fi.qualname, label, und, where=where(fi))
             else:
                 ctx.record('R04.7', fi.qualname, label, not bad, detail='; '.join(bad[:2]), where=where(fi), sample={'arcs': n})
+
+
+def _returned_arcs(ctx, mdl):
+    """every Arc the library hands out (scaled, rotated, translated, reversed, cropped, split) carries the derived state of ITS OWN
+    constructor fields: centre, theta, delta, radius equal those of an Arc freshly built from (start, radius, rotation, flags, end)
+    of the returned object.  Concrete axis circles, so that every quantity is exact."""
+    ctx.rule('R04.8', 'an Arc returned by scaled / rotated / translated / reversed / cropped / split has the centre, theta, delta and radius that its '
+                      'own constructor fields define (concrete axis circles; uniform factors 2, -1, -3/2; quarter turns; sub-arcs between axis points)', 6)
+    unit = [Rat.const(1), Rat.const(1j), Rat.const(-1), Rat.const(-1j)]
+    third, two3 = Rat.const(Fr(1, 3)), Rat.const(Fr(2, 3))
+    ops = [('scaled', lambda it, a: [it.call_method(a, 'scaled', Rat.const(f)) for f in (2, -1, Fr(-3, 2))]),
+           ('scaled about a point', lambda it, a: [it.call_method(a, 'scaled', Rat.const(f), origin=Rat.const(1 + 2j)) for f in (3, -2)]),
+           ('rotated', lambda it, a: [it.call_method(a, 'rotated', Rat.const(d), origin=Rat.const(o)) for d, o in ((90, 0), (180, 1 + 1j), (-90, 2 - 1j))]),
+           ('translated', lambda it, a: [it.call_method(a, 'translated', Rat.const(3 - 4j))]),
+           ('reversed', lambda it, a: [it.call_method(a, 'reversed')]),
+           ('cropped / split', lambda it, a: [it.call_method(a, 'cropped', third, two3), it.call_method(a, 'cropped', Rat.const(0), third)] +
+            list(it.iterate(it.call_method(a, 'split', two3))))]
+    specs = []
+    for c, r in ((Rat.const(0), 1), (Rat.const(2 + 3j), 2)):
+        for k0 in (0, 1, 3):
+            for sweep in (False, True):
+                sgn = 1 if sweep else -1
+                specs.append((c, r, k0, (k0 + sgn * 3) % 4, sweep))
+    ArcC = mdl.cls('path.Arc')
+    for label, op in ops:
+        meth = label.split(' ')[0]
+        fi = ArcC.methods.get(meth) or mdl.func(Q)
+        bad = []
+        und = None
+        n = 0
+        for c, r, k0, k1, sweep in specs:
+            def th(it, c=c, r=r, k0=k0, k1=k1, sweep=sweep):
+                a = it.construct('path.Arc', c + r * unit[k0], Rat.const(complex(r, r)), Rat.const(0), True, sweep, c + r * unit[k1])
+                out = []
+                for res in op(it, a):
+                    if not (isinstance(res, Obj) and res.cls.name == 'Arc'):
+                        out.append(None)
+                        continue
+                    f_ = res.attrs
+                    fresh = it.construct('path.Arc', f_['start'], f_['radius'], f_['rotation'], f_['large_arc'], f_['sweep'], f_['end'])
+                    out.append([(k_, f_.get(k_), fresh.attrs.get(k_)) for k_ in ('center', 'theta', 'delta', 'radius')])
+                return out
+            try:
+                paths = explore(mdl, th, {})
+            except Undecidable as e:
+                und = und or str(e)
+                continue
+            for pth in paths:
+                if pth.raised is not None:
+                    if pth.raised.exc_name not in ('AssertionError',):
+                        und = und or 'raises %s' % pth.raised.exc_name
+                    continue
+                for i, res in enumerate(pth.value):
+                    if res is None:
+                        continue
+                    n += 1
+                    for k_, got, want in res:
+                        if k_ == 'theta':
+                            g_, w_ = to_rat(got).as_fraction(), to_rat(want).as_fraction()
+                            if g_ is None or w_ is None:
+                                ok = decide_equal(got, want)[0]
+                            else:
+                                ok = (g_ - w_) % 360 == 0
+                        else:
+                            ok = decide_equal(got, want)[0]
+                        if ok is False:
+                            bad.append('%s #%d of the circle (centre %s, r %d, from %d deg, %s): %s is %s, its own fields define %s' % (
+                                label, i, short(c, 8), r, 90 * k0, 'sweep' if sweep else 'no sweep', k_, short(got, 16), short(want, 16)))
+                        elif ok is None:
+                            und = und or '%s: %s = %s not reduced' % (label, k_, short(got, 24))
+        if und and not bad:
+            ctx.undecided('R04.8', fi.qualname, 'Arc.%s: returned arcs carry the derived state of their own fields' % label, und, where=where(fi))
+        else:
+            ctx.record('R04.8', fi.qualname, 'Arc.%s: returned arcs carry the derived state of their own fields' % label, not bad,
+                       detail='; '.join(bad[:2]), where=where(fi), sample={'arcs_compared': n})
 
 
 def _chain(large, sweep):
